@@ -69,7 +69,7 @@ func cmdVerify(args []string) {
 	}
 	var keys []string
 	for k, fc := range w.contracts {
-		if fc.Extern || (fc.AssumeOnly && !fc.SingleTx) || fc.Inline {
+		if fc.Extern || (fc.AssumeOnly && !fc.SingleTx && !(fc.CallsArg > 0 && len(fc.Props) > 0)) || fc.Inline {
 			continue
 		}
 		if re.MatchString(k) {
